@@ -22,7 +22,7 @@ CHECKS = {
  "C05": ("fault_enumeration", "exhaustive enumeration of damage sequences (length 1, 2; 3 in thorough) from a boundary-offset damage catalogue, oracle by independent byte comparison",
   "Every single damage and every pair (thorough: triple) of damages on distinct entries of 4 builds; wounds file decoded independently; every differing offset must lie in a FILE wound, shorter/longer files and wrong kinds must be wounded, wounds well-formed; fail-fast must return an error.",
   "Offsets/lengths from the boundary set around every block boundary; two-flip weak-hash collisions included.", "DESIGN.md#c05"),
- "C06": ("model_checking", "exhaustive enumeration of damage sequences (incl. kind swaps hiding subtrees) healed by the real validator+archive healer; schedule dimension of validator/healer covered by repetition here (E2 scheduler part planned)",
+ "C06": ("fault_enumeration", "exhaustive enumeration of damage sequences (incl. kind swaps hiding subtrees) healed by the real validator+archive healer; schedule dimension of validator/healer covered by repetition here (E2 scheduler part planned)",
   "Builds x all damage sequences of length 1-2 (+ structural triples): Validate with an archive healer must return nil, every signed entry must be present with signed content, fail-fast validation must pass afterwards, a valid directory must not be touched (inode/mtime).",
   "Goroutine interleavings of validator and healer are not yet enumerated for this property (each case repeated 5 times, schedule-dependent failures tagged). Known finding: directory replaced by a symlink to a twin directory.", "DESIGN.md#c06"),
  "C08": ("model_checking", E1 + " over renames, duplications and k<=2 localized edits at boundary offsets/lengths; fresh bytes counted from the independently decoded op stream",
